@@ -3,7 +3,6 @@
 from __future__ import annotations
 
 import json
-import os
 import re
 from typing import Any
 
@@ -20,12 +19,6 @@ ASSUMPTIONS = [
     'a path identifier on a family for which ADD-PATH cannot be negotiated (Capabilities._ADD_PATH) is dropped by pack_nlri by design: such objects are not round-tripped',
 ]
 TRUSTED_EXTRA = ['harness/tables/registry.py (registries and framing constants read from the live classes)', 'harness/roundtriprig.py (sources and law evaluation on the real classes)']
-
-# Which Lean definition is compared with `index()` / `__hash__`: 'idx' = `Exa.Index.index` (the code
-# as it is), 'fix' = `Exa.Index.indexFix` (the encoding of proposed_fixes/F15-index-collision.md).
-# Switch to 'fix' when that patch is applied to /repo: the correspondence then checks the repaired
-# encoding, for which `index_fixed_injective` is the full theorem.
-INDEX_MODEL = os.environ.get('VERIF_C15_INDEX_MODEL', 'idx')
 
 DISA = b'disa'
 NOP = b'no-p'
@@ -221,7 +214,8 @@ def mutate_key(rng, rec: dict) -> tuple[dict, str]:
 
 
 def collision_pairs(rng) -> list[tuple[str, dict, dict]]:
-    """Instances of the collision shapes the model predicts (`index_collision*` in Props/C15.lean)."""
+    """Instances of the shapes that collided under the encoding before commit 202850b (`indexOld` in
+    the model; the examples of Props/C15.lean): regression cases, they must be told apart now."""
     out = []
     for kind, safi in (('inet', 1), ('inet', 2), ('label', 4)):
         m = rng.randrange(65, 73)
@@ -295,7 +289,7 @@ def index_stream(ctx: Ctx, book: Book, n: int) -> None:
     lines = []
     for _, a, b in cases:
         for r in (a, b):
-            lines += [rec_line('idx', r), rec_line('route', r), rec_line('hash', r), rec_line('wf', r), rec_line('fix', r)]
+            lines += [rec_line('idx', r), rec_line('route', r), rec_line('hash', r), rec_line('wf', r), rec_line('old', r)]
     model = common.run_driver('drv_index', lines) if ctx.driver_ok else None
     for i, (tag, a, b) in enumerate(cases):
         if ctx.time_left() < 0:
@@ -316,12 +310,6 @@ def index_stream(ctx: Ctx, book: Book, n: int) -> None:
         if model is not None:
             ma = list(model[10 * i : 10 * i + 5])
             mb = list(model[10 * i + 5 : 10 * i + 10])
-            if INDEX_MODEL == 'fix':
-                for rec, m in ((a, ma), (b, mb)):
-                    m[0] = m[4]
-                    m[1] = m[1][:8] + m[4]
-                    if rec['kind'] != 'inet':
-                        m[2] = m[4]
             for rec, m, idx, ridx in ((a, ma, ia, ra), (b, mb, ib, rb)):
                 if m[3] != '1':
                     ctx.disagreements.append(Disagreement('index-wf', rec, 'model says the record is outside the guard', 'the class built it'))
@@ -333,9 +321,8 @@ def index_stream(ctx: Ctx, book: Book, n: int) -> None:
                 ctx.disagreements.append(Disagreement('nlri-eq', [a, b], ma[0] == mb[0], eq))
             if (ma[2] == mb[2]) != heq:
                 ctx.disagreements.append(Disagreement('nlri-hash', [a, b], f'hash keys equal: {ma[2] == mb[2]}', f'hashes equal: {heq}'))
-            # the repaired encoding tells every pair with different keys apart (sanity of the proposal)
-            if key_of(a) != key_of(b) and ma[4] == mb[4]:
-                ctx.disagreements.append(Disagreement('index-fix', [a, b], 'repaired index collides', ''))
+            if tag.startswith(('predicted', 'corpus')) and key_of(a) != key_of(b):
+                ctx.count('index:collided-before-202850b:' + str(ma[4] == mb[4]))
         cls = type(xa).__name__
         replay = {'stream': 'index', 'a': a, 'b': b}
         cp = tag.startswith('corpus')
@@ -1098,7 +1085,7 @@ def run(ctx: Ctx) -> None:
     quick = ctx.tier == 'quick'
     ctx.rule = (
         'index stream: pairs of abstract IP-family NLRIs (INET/Label/IPVPN, both AFIs, masks at byte boundaries and at 98/105, path-id none/0/explicit incl. the ASCII-sentinel prefixes) that are equal, '
-        'differ in exactly one of family/path-id/mask/prefix/RD, differ only in labels, or are the predicted collision shapes, built through the real from_cidr; non-trivial = both objects built and compared; '
+        'differ in exactly one of family/path-id/mask/prefix/RD, differ only in labels, or are the shapes that collided before the index was repaired, built through the real from_cidr; non-trivial = both objects built and compared; '
         'framing stream: for every registered family, bytes produced by the real encoder (alone, truncated, followed by junk, followed by a second encoded NLRI) and synthetic frames at the length boundaries of the kind; non-trivial = the real decoder accepted the frame; '
         'object streams: every route of every shipped configuration, every cmd/raw line of qa/encoding, qa/decoding samples, generated route/vpls/flow text, every make_*/from_*/create classmethod swept over its boundary pools; '
         'non-trivial = the object passed pack → unpack and all laws were evaluated; distinct = distinct (class, bytes)'
